@@ -111,6 +111,13 @@ pub struct LookupTrace {
 }
 
 pub fn lookup_trace(sim: &Sim, n: usize, target: &[u8; 20], log0: usize, end_ns: u64) -> LookupTrace {
+    lookup_trace_accepted(sim, n, target, log0, end_ns, None)
+}
+
+/// `accepted`: when given, only the responses whose wire id is in the set count as answers (the responses the node's socket
+/// accepted: in-flight entry present, right address, younger than the request timeout at that instant - read off the
+/// snapshots that bracket every delivery in watch mode).
+pub fn lookup_trace_accepted(sim: &Sim, n: usize, target: &[u8; 20], log0: usize, end_ns: u64, accepted: Option<&HashSet<u64>>) -> LookupTrace {
     let me = sim.nodes[n].addr;
     let mut t = LookupTrace { queried: vec![], requests: vec![], answered: vec![], listed: vec![], stores: vec![], token_bearers: vec![] };
     let mut tids: HashMap<Vec<u8>, SocketAddrV4> = HashMap::new();
@@ -131,7 +138,8 @@ pub fn lookup_trace(sim: &Sim, n: usize, target: &[u8; 20], log0: usize, end_ns:
             } else if m.target() == Some(*target) && (q == "put" || q.starts_with("announce")) {
                 t.stores.push(r.to);
             }
-        } else if r.to == me && (m.is_response() || m.is_error()) && !r.delivered_ns.is_empty() && r.delivered_ns[0] <= end_ns {
+        } else if r.to == me && (m.is_response() || m.is_error()) && !r.delivered_ns.is_empty() && r.delivered_ns[0] <= end_ns
+            && accepted.map(|a| a.contains(&r.id)).unwrap_or(true) {
             if let Some(to) = tids.get(&m.tid) {
                 if *to == r.from && m.is_response() {
                     if let Some(id) = m.arg_id("id") {
